@@ -9,10 +9,10 @@
 From GV Require Import Compiler.Compile Proofs.LexProofs Proofs.NoDeadlockProofs.
 From Coq Require Import Lia.
 
-(** every state function, on every cursor, sends at most four tokens (the channel holds [c_token_queue_cap] = 64,
+(** every state function, on every cursor, sends at most four tokens (the channel holds [c_token_queue_cap] tokens,
     a constant regenerated from lexer.go) *)
 Theorem C06_state_call_emits_few : forall st l, (ol (snd (step st l)) <= ol l + 4)%nat /\ (4 < c_token_queue_cap)%nat.
-Proof. intros st l. split; [apply step_emits_few|change c_token_queue_cap with 64%nat; lia]. Qed.
+Proof. intros st l. split; [apply step_emits_few|exact cap_ok]. Qed.
 Print Assumptions C06_state_call_emits_few.
 
 Theorem C06_lexer_never_blocks : forall fuel lx, lok lx ->
